@@ -4,8 +4,10 @@
    Model/BinTableOps.v; the right-hand sides are the back-end-free specs of
    Spec/BinTableOpsSpec.v (select rows, then columns, then fold).
 
-   Hypotheses: [wf t] (rectangular), selections in range and duplicate-free ([red_ok],
-   [item_ok], [ok_op]); [proper t] additionally asks for at least one row and one column. *)
+   Hypotheses: [wf t] (rectangular) and selections in range ([red_ok], [item_ok], [ok_op]) —
+   they may be unsorted and may repeat an index; only sums over a column selection along axis
+   None / 1 need it duplicate-free ([sum_ok]: the bitarray back-end counts through a mask).
+   [proper t] additionally asks for at least one row and one column. *)
 From FCA Require Import Base.ListSet Model.BinTable Model.BinTableOps Model.FormalContext
      Spec.Galois Spec.BinTableOpsSpec
      Lemmas.C05_Base Lemmas.C05_Reduce Lemmas.C05_Algebra Lemmas.C05_GetItem.
@@ -27,7 +29,7 @@ Proof. exact any_op_correct. Qed.
 Print Assumptions C05_any_correct.
 
 Theorem C05_sum_correct : forall b t axis rows cols,
-  wf t -> red_ok t rows cols ->
+  wf t -> red_ok t rows cols -> sum_ok axis cols ->
   sum_op b t axis rows cols
   = if axis_ok axis then ROk (S_sum t axis (rows_or t rows) (cols_or t cols)) else RErr E_Type.
 Proof. exact sum_op_correct. Qed.
@@ -182,6 +184,15 @@ Theorem C05_empty_row_selection : forall b t,
 Proof. exact empty_row_selection. Qed.
 Print Assumptions C05_empty_row_selection.
 
+(* outside the quantifier, and why: a sum over a column selection that repeats an index (axis
+   None / 1) is answered differently by the bitarray back-end, in the code as in its model *)
+Theorem C05_sum_repeated_columns_differ :
+  run_op BLists [[true]] (OSum None None (Some [0; 0])) = ROk (VNat 2) /\
+  run_op BNumpy [[true]] (OSum None None (Some [0; 0])) = ROk (VNat 2) /\
+  run_op BBitarray [[true]] (OSum None None (Some [0; 0])) = ROk (VNat 1).
+Proof. exact sum_repeated_columns_differ. Qed.
+Print Assumptions C05_sum_repeated_columns_differ.
+
 (* ------------------------------------------------------------ non-vacuity *)
 
 Definition ex5 : table := [[true; false; true]; [false; true; true]; [true; true; false]].
@@ -191,6 +202,8 @@ Example C05_nonvacuous :
   ok_op ex5 (OSum (Some 0) (Some [2; 0]) (Some [1; 2])) /\
   ok_op ex5 (OGet (ItPair (XSel (SSlice [2; 1; 0])) (XSel (SList [2; 0])))) /\
   ok_op ex5 (OCtxGet [7; 8; 9] [4; 5; 6] (ItPair (XSel (SList [1; 2])) (XSel (SSlice [0; 2])))) /\
+  ok_op ex5 (OAllI 1 (Some [2; 0; 2]) (Some [0; 0; 1])) /\
+  run_op BBitarray ex5 (OAllI 1 (Some [2; 0; 2]) (Some [0; 0; 1])) = ROk (VNats [2; 2]) /\
   run_op BBitarray ex5 (OSum (Some 0) (Some [2; 0]) (Some [1; 2])) = ROk (VNats [1; 1]) /\
   run_op BNumpy ex5 (OGet (ItPair (XSel (SSlice [2; 1; 0])) (XSel (SList [2; 0]))))
     = ROk (VTable 3 2 [[false; true]; [true; false]; [true; true]]) /\
